@@ -26,6 +26,7 @@
 #include <cstdlib>
 #include <cstring>
 #include <cxxabi.h>
+#include <fcntl.h>
 #include <regex.h>
 #include <typeinfo>
 #include <unistd.h>
@@ -71,16 +72,34 @@ Issue::ReferenceRule ruleOf(int p)
 const char *const HDR = "<?xml version=\"1.0\" encoding=\"UTF-8\"?>\n<model xmlns=\"http://www.cellml.org/cellml/2.0#\" name=\"m\">\n";
 const char *const MATH_OPEN = "<math xmlns=\"http://www.w3.org/1998/Math/MathML\" xmlns:cellml=\"http://www.cellml.org/cellml/2.0#\"><apply><eq/><ci>v</ci>";
 
+// Same-document range errors (history class "same-document-range-error"): aug 1..3 puts another numeric text that
+// hits a range condition (underflow, overflow, integer beyond int) into the same document, ahead of the placement and
+// never at an attribute that cites the placement's own rule: a preceding <unit> of the same units for the three unit
+// positions, a preceding units definition "h" for the others.
+std::string augmentUnitAttributes(int p, int aug)
+{
+    static const char *const T[3][3] = {
+        {"multiplier=\"1e-320\"", "multiplier=\"1e999\"", "prefix=\"99999999999\""}, // placement: exponent
+        {"exponent=\"1e-320\"", "exponent=\"1e999\"", "prefix=\"99999999999\""}, // placement: multiplier
+        {"multiplier=\"1e-320\"", "exponent=\"1e999\"", "multiplier=\"4.9e-324\" exponent=\"-1e999\""}, // placement: prefix
+    };
+    static const char *const G[3] = {"multiplier=\"1e-320\"", "exponent=\"1e999\"", "prefix=\"99999999999\""};
+    return p <= P_PREFIX ? T[p][aug - 1] : G[aug - 1];
+}
+
 // The document carrying string s in position p. s never contains XML-special characters (alphabets below).
-std::string document(const std::string &s, int p)
+std::string document(const std::string &s, int p, int aug = 0)
 {
     std::string d = HDR;
+    if (aug != 0 && p > P_PREFIX) {
+        d += " <units name=\"h\"><unit units=\"second\" " + augmentUnitAttributes(p, aug) + "/></units>\n";
+    }
     switch (p) {
     case P_EXP:
     case P_MULT:
     case P_PREFIX:
         // Two connected variables in the units so that the validator's unit reduction of the child is exercised too.
-        d += " <units name=\"u\"><unit units=\"metre\" " + std::string(p == P_EXP ? "exponent" : (p == P_MULT ? "multiplier" : "prefix")) + "=\"" + s + "\"/></units>\n"
+        d += " <units name=\"u\">" + (aug != 0 ? "<unit units=\"second\" " + augmentUnitAttributes(p, aug) + "/>" : std::string()) + "<unit units=\"metre\" " + std::string(p == P_EXP ? "exponent" : (p == P_MULT ? "multiplier" : "prefix")) + "=\"" + s + "\"/></units>\n"
              " <component name=\"c1\"><variable name=\"v\" units=\"u\" interface=\"public\"/></component>\n"
              " <component name=\"c2\"><variable name=\"v\" units=\"u\" interface=\"public\"/></component>\n"
              " <connection component_1=\"c1\" component_2=\"c2\"><map_variables variable_1=\"v\" variable_2=\"v\"/></connection>\n";
@@ -230,12 +249,19 @@ void countIssues(const LoggerPtr &lg, Issue::ReferenceRule rule, int &ruleCount,
     }
 }
 
-Obs observe(const std::string &s, int p)
+// Fresh-state observation (true): thread-global state a fresh process would not have is cleared before each document
+// (errno; libxml2's keep-blanks default is always restored). False while a history is in effect (see "history").
+bool gFreshState = true;
+
+Obs observe(const std::string &s, int p, int aug = 0)
 {
     Obs o;
     o.ran = true;
     xmlKeepBlanksDefault(1); // hidden-state reset (DESIGN 2.7)
-    const std::string doc = document(s, p);
+    if (gFreshState) {
+        errno = 0;
+    }
+    const std::string doc = document(s, p, aug);
     const Issue::ReferenceRule rule = ruleOf(p);
     o.stage = "Parser";
     try {
@@ -252,11 +278,12 @@ Obs observe(const std::string &s, int p)
         case P_MULT:
         case P_PREFIX: {
             auto u = m->units("u");
-            if (u == nullptr || u->unitCount() != 1) {
+            const size_t last = aug != 0 ? 1 : 0;
+            if (u == nullptr || u->unitCount() != last + 1) {
                 o.itemMissing = true;
             } else {
-                o.d = p == P_EXP ? u->unitAttributeExponent(0) : u->unitAttributeMultiplier(0);
-                o.s = u->unitAttributePrefix(0);
+                o.d = p == P_EXP ? u->unitAttributeExponent(last) : u->unitAttributeMultiplier(last);
+                o.s = u->unitAttributePrefix(last);
             }
             break;
         }
@@ -459,6 +486,7 @@ std::string gMode = "rc";
 int gLenAttr = 5; // exhaustive bound for the five attribute positions
 int gLenCn = 5; // exhaustive bound for the three cn positions
 long gRawBound = 0;
+int gLenHistory = 2; // exhaustive mode: strings up to this length are also enumerated with every history
 bool gBatchCn = false; // exhaustive mode: many cn elements per document (see observeCnBatch)
 
 // index of a string in the enumeration order of the exhaustive driver (by length, then lexicographic in symbol index)
@@ -675,6 +703,9 @@ void observeCnBatch(Chunk &ch, const std::vector<CnMember> &members, int expecta
     if (members.size() > 1) {
         ++ch.batchDocuments;
         xmlKeepBlanksDefault(1);
+        if (gFreshState) {
+            errno = 0;
+        }
         std::string d = HDR;
         d += " <component name=\"c\"><variable name=\"v\" units=\"dimensionless\"/><math xmlns=\"http://www.w3.org/1998/Math/MathML\" xmlns:cellml=\"http://www.cellml.org/cellml/2.0#\">";
         for (const auto &m : members) {
@@ -872,17 +903,311 @@ void fetch(uint64_t idx, const std::string &s, unsigned mask, Obs out[NPOS], Cas
     observeAll(s, mask, out, c);
 }
 
+// ------------------------------------------------------------------------------------------------ history
+// Recognition must be a function of the text. Besides the fresh-state observation (phase A) a case may carry a *history*,
+// chosen by its own tape so that a replay in a fresh process reproduces it:
+//   range-error-before         : 1..3 other documents / API models whose numeric texts underflow, overflow or exceed int
+//                                go through Parser, Validator, Printer, Analyser, Generator first, in the same process,
+//                                then the placements are observed again without clearing anything (phase B);
+//   same-document-range-error  : phase B observes the placement in a document that also contains such a text.
+// Phase B must agree with phase A in verdict and value, and with the reference.
+struct HistoryPlan
+{
+    int cls = 0; // 0 none, 1 range-error-before, 2 same-document-range-error
+    std::vector<int> entries; // catalogue numbers (cls 1)
+    int aug = 0; // 1..3 (cls 2)
+    unsigned maskB = 0; // positions observed again
+};
+const char *const HISTORY_CLASS[3] = {"none", "range-error-before", "same-document-range-error"};
+const int N_HISTORY = 9, N_HISTORY_CHEAP = 6; // the first six need no MathML block
+const char *const HISTORY_NAME[N_HISTORY] = {"exponent-overflow", "multiplier-underflow", "order-huge-integer", "prefix-huge-integer", "printer-subnormal-reparsed", "multiplier-overflow+prefix-beyond-int",
+                                             "cn-overflow", "cn-e-notation-exponent-huge", "analyser-generator-tiny-initial-value"};
+
+std::string historyLabel(const HistoryPlan &h)
+{
+    if (h.cls == 2) {
+        return "augment-" + std::to_string(h.aug);
+    }
+    std::string l;
+    for (int e : h.entries) {
+        l += (l.empty() ? "" : "+") + std::string(HISTORY_NAME[e]);
+    }
+    return l.empty() ? "none" : l;
+}
+
+void parseAndValidate(const std::string &doc, bool analyse = false)
+{
+    auto parser = Parser::create(true);
+    ModelPtr m = parser->parseModel(doc);
+    if (m == nullptr) {
+        return;
+    }
+    auto validator = Validator::create();
+    validator->validateModel(m);
+    if (analyse) {
+        auto analyser = Analyser::create();
+        analyser->analyseModel(m);
+        if (analyser->model() != nullptr && analyser->model()->isValid()) {
+            auto generator = Generator::create();
+            generator->setModel(analyser->model());
+            (void)generator->implementationCode();
+        }
+    }
+}
+
+// Runs one history entry. An exception escaping it is returned as a failure.
+void runHistoryEntry(int e, std::vector<Failure> &fails)
+{
+    xmlKeepBlanksDefault(1);
+    const std::string big(400, '0');
+    try {
+        switch (e) {
+        case 0: parseAndValidate(std::string(HDR) + " <units name=\"h\"><unit units=\"second\" exponent=\"1e999\"/></units>\n</model>\n"); break;
+        case 1: parseAndValidate(std::string(HDR) + " <units name=\"h\"><unit units=\"second\" multiplier=\"1e-320\"/></units>\n</model>\n"); break;
+        case 2: parseAndValidate(std::string(HDR) + " <component name=\"c\"><variable name=\"v\" units=\"dimensionless\"/><variable name=\"w\" units=\"dimensionless\"/><reset variable=\"v\" test_variable=\"w\" order=\"99999999999\"/></component>\n</model>\n"); break;
+        case 3: parseAndValidate(std::string(HDR) + " <units name=\"h\"><unit units=\"second\" prefix=\"99999999999999999999\"/></units>\n</model>\n"); break;
+        case 4: {
+            auto m = Model::create("m");
+            auto u = Units::create("h");
+            u->addUnit("second", "", 4.9406564584124654e-324, 1e-310);
+            m->addUnits(u);
+            auto printer = Printer::create();
+            std::string text = printer->printModel(m);
+            xmlKeepBlanksDefault(1);
+            if (!text.empty()) {
+                parseAndValidate(text);
+            }
+            break;
+        }
+        case 5: parseAndValidate(std::string(HDR) + " <units name=\"h\"><unit units=\"second\" multiplier=\"-1e999\"/><unit units=\"metre\" prefix=\"2147483648\"/></units>\n</model>\n"); break;
+        case 6: parseAndValidate(std::string(HDR) + " <component name=\"c\"><variable name=\"v\" units=\"dimensionless\"/>" + MATH_OPEN + "<cn cellml:units=\"dimensionless\">1" + big + "</cn></apply></math></component>\n</model>\n"); break;
+        case 7: parseAndValidate(std::string(HDR) + " <component name=\"c\"><variable name=\"v\" units=\"dimensionless\"/>" + MATH_OPEN + "<cn cellml:units=\"dimensionless\" type=\"e-notation\">1<sep/>99999999999</cn></apply></math></component>\n</model>\n"); break;
+        default:
+            parseAndValidate(std::string(HDR) + " <component name=\"c\"><variable name=\"t\" units=\"dimensionless\"/><variable name=\"x\" units=\"dimensionless\" initial_value=\"1e-320\"/>"
+                                                "<math xmlns=\"http://www.w3.org/1998/Math/MathML\" xmlns:cellml=\"http://www.cellml.org/cellml/2.0#\"><apply><eq/><apply><diff/><bvar><ci>t</ci></bvar><ci>x</ci></apply>"
+                                                "<cn cellml:units=\"dimensionless\" type=\"e-notation\">4.9<sep/>-324</cn></apply></math></component>\n</model>\n",
+                             true);
+            break;
+        }
+    } catch (const std::exception &ex) {
+        fails.push_back({"C16.throw|history:" + std::string(HISTORY_NAME[e]) + "|" + typeName(ex), typeName(ex) + " escaped while the history entry " + HISTORY_NAME[e] + " went through the services"});
+    } catch (...) {
+        fails.push_back({"C16.throw|history:" + std::string(HISTORY_NAME[e]) + "|non-std-exception", "exception escaped while the history entry went through the services"});
+    }
+}
+
+// Everything observed for one string case.
+struct Observed
+{
+    Obs a[NPOS]; // fresh state
+    Obs b[NPOS]; // after / within the history
+    std::vector<Failure> historyFails;
+    long batchDocuments = 0, batchFallbacks = 0;
+};
+
+void observePhaseA(const std::string &s, unsigned mask, Observed &r)
+{
+    gFreshState = true;
+    Chunk ch;
+    ch.strings.push_back(s);
+    ch.masks.push_back(mask);
+    observeChunk(ch, gMode != "ex" || gBatchCn);
+    for (int p = 0; p < NPOS; ++p) {
+        r.a[p] = ch.obs[0][static_cast<size_t>(p)];
+    }
+    r.batchDocuments += ch.batchDocuments;
+    r.batchFallbacks += ch.batchFallbacks;
+}
+
+void observePhaseB(const std::string &s, const HistoryPlan &h, Observed &r)
+{
+    if (h.cls == 0) {
+        return;
+    }
+    errno = 0; // the case starts from the state of a fresh process ...
+    gFreshState = false; // ... and nothing is cleared from here on
+    if (h.cls == 1) {
+        for (int e : h.entries) {
+            runHistoryEntry(e, r.historyFails);
+        }
+    }
+    for (int p = 0; p < NPOS; ++p) {
+        if ((h.maskB & (1u << p)) != 0) {
+            r.b[p] = observe(s, p, h.cls == 2 ? h.aug : 0);
+        }
+    }
+    gFreshState = true;
+}
+
+std::string packObserved(const Observed &r, bool withA)
+{
+    std::string b;
+    unsigned char flag = withA ? 1 : 0;
+    put(b, &flag, 1);
+    for (int p = 0; withA && p < NPOS; ++p) {
+        b += packObs(r.a[p]);
+    }
+    for (int p = 0; p < NPOS; ++p) {
+        b += packObs(r.b[p]);
+    }
+    uint32_t n = static_cast<uint32_t>(r.historyFails.size());
+    put(b, &n, 4);
+    for (const auto &f : r.historyFails) {
+        putStr(b, f.sig);
+        putStr(b, f.msg);
+    }
+    int64_t v[2] = {r.batchDocuments, r.batchFallbacks};
+    put(b, v, sizeof v);
+    return b;
+}
+bool unpackObserved(const std::string &b, Observed &r)
+{
+    size_t at = 0;
+    unsigned char flag = 0;
+    if (!getBytes(b, at, &flag, 1)) {
+        return false;
+    }
+    for (int p = 0; flag != 0 && p < NPOS; ++p) {
+        if (!unpackObs(b, at, r.a[p])) {
+            return false;
+        }
+    }
+    for (int p = 0; p < NPOS; ++p) {
+        if (!unpackObs(b, at, r.b[p])) {
+            return false;
+        }
+    }
+    uint32_t n = 0;
+    if (!getBytes(b, at, &n, 4) || n > 64) {
+        return false;
+    }
+    r.historyFails.clear();
+    for (uint32_t k = 0; k < n; ++k) {
+        Failure f;
+        if (!getStr(b, at, f.sig) || !getStr(b, at, f.msg)) {
+            return false;
+        }
+        r.historyFails.push_back(f);
+    }
+    int64_t v[2] = {0, 0};
+    if (!getBytes(b, at, v, sizeof v)) {
+        return false;
+    }
+    r.batchDocuments += v[0];
+    r.batchFallbacks += v[1];
+    return true;
+}
+
+// Process hygiene: the observation of a case runs in a forked child, so that nothing a case leaves behind in the
+// process (errno is cleared anyway, but also static buffers, caches, locale) can reach the next case of this worker.
+// A failure is then a function of the tape alone and reproduces in the fresh process of a replay (bin/check discards
+// what does not). A dead child is not interpreted here: the observation is repeated in-process and the worker dies
+// the ordinary way, with the right *.cur.
+struct IsoArg
+{
+    const std::string *s;
+    unsigned mask;
+    const HistoryPlan *h;
+    bool withA;
+    int wfd;
+};
+void isoFn(void *arg)
+{
+    auto *a = static_cast<IsoArg *>(arg);
+    Observed r;
+    if (a->withA) {
+        observePhaseA(*a->s, a->mask, r);
+    }
+    observePhaseB(*a->s, *a->h, r);
+    std::string body = packObserved(r, a->withA);
+    uint32_t len = static_cast<uint32_t>(body.size());
+    std::string rec;
+    put(rec, &len, 4);
+    rec += body;
+    writeAll(a->wfd, rec.data(), rec.size());
+}
+bool observeIsolated(const std::string &s, unsigned mask, const HistoryPlan &h, bool withA, Observed &r)
+{
+    int pfd[2];
+    if (pipe(pfd) != 0) {
+        return false;
+    }
+    // the record must fit the pipe buffer, the child writes before the parent reads
+    fcntl(pfd[1], F_SETPIPE_SZ, 1 << 20);
+    IsoArg a{&s, mask, &h, withA, pfd[1]};
+    std::string diag;
+    int rc = runIsolated(isoFn, &a, 0, &diag);
+    close(pfd[1]);
+    bool ok = rc == 0;
+    if (ok) {
+        uint32_t len = 0;
+        ok = readAll(pfd[0], reinterpret_cast<char *>(&len), 4) && len < (1u << 20);
+        std::string body(ok ? len : 0, '\0');
+        ok = ok && readAll(pfd[0], &body[0], len) && unpackObserved(body, r);
+    }
+    close(pfd[0]);
+    return ok;
+}
+
+bool sameObservation(const Obs &x, const Obs &y, std::string &what)
+{
+    if (x.threw != y.threw) {
+        what = y.threw ? "throws" : "no-longer-throws";
+    } else if ((x.ruleParser + x.ruleValidator > 0) != (y.ruleParser + y.ruleValidator > 0)) {
+        what = (y.ruleParser + y.ruleValidator > 0) ? "accepted-then-rejected" : "rejected-then-accepted";
+    } else if (x.modelNull != y.modelNull || x.itemMissing != y.itemMissing) {
+        what = "document-loading-changed";
+    } else if (memcmp(&x.d, &y.d, sizeof x.d) != 0 && !(x.d == y.d) || x.i != y.i || x.orderSet != y.orderSet || x.s != y.s) {
+        what = "value-changed";
+    } else {
+        return true;
+    }
+    return false;
+}
+
 // ------------------------------------------------------------------------------------------------ string cases
-void stringCase(Case &c, const std::string &kind, const std::string &s, bool exhaustiveIndexed, uint64_t idx)
+uint64_t gCachedIdx = ~0ULL;
+Obs gCachedObs[NPOS];
+
+void stringCase(Case &c, const std::string &kind, const std::string &s, bool exhaustiveIndexed, uint64_t idx, const HistoryPlan &h)
 {
     const unsigned mask = positionMask(s.size());
-    Obs obs[NPOS];
+    Observed r;
+    bool countA = true;
     if (exhaustiveIndexed) {
-        fetch(idx, s, mask, obs, c);
+        // phase A from the pool (each string once; its history variants follow it immediately in enumeration order)
+        if (idx != gCachedIdx) {
+            fetch(idx, s, mask, gCachedObs, c);
+            gCachedIdx = idx;
+        } else {
+            countA = false; // a history variant of the string just enumerated: its fresh-state observation is already counted
+        }
+        for (int p = 0; p < NPOS; ++p) {
+            r.a[p] = gCachedObs[p];
+        }
+        if (h.cls != 0 && !observeIsolated(s, mask, h, false, r)) {
+            c.count("isolated_child_lost");
+            observePhaseB(s, h, r);
+        }
+    } else if (gMode == "rc") {
+        if (!observeIsolated(s, mask, h, true, r)) {
+            c.count("isolated_child_lost");
+            r = Observed();
+            observePhaseA(s, mask, r);
+            observePhaseB(s, h, r);
+        }
     } else {
-        observeAll(s, mask, obs, c);
+        observePhaseA(s, mask, r);
+        observePhaseB(s, h, r);
     }
-    c.text = kind + " string " + show(s) + " (length " + std::to_string(s.size()) + ")";
+    if (r.batchDocuments != 0) {
+        c.count("cn_batch_documents", r.batchDocuments);
+    }
+    if (r.batchFallbacks != 0) {
+        c.count("cn_batch_documents_inconclusive_rerun_per_string", r.batchFallbacks);
+    }
+    const std::string hclass = HISTORY_CLASS[h.cls], hlabel = historyLabel(h);
+    c.text = kind + " string " + show(s) + " (length " + std::to_string(s.size()) + "), history " + hclass + (h.cls != 0 ? " [" + hlabel + "]" : "");
     c.hash = hashStr(s);
     c.weight = s.size();
     bool allDigits = !s.empty();
@@ -891,24 +1216,57 @@ void stringCase(Case &c, const std::string &kind, const std::string &s, bool exh
     }
     c.nontrivial = !s.empty() && !allDigits;
     c.cls("kind:" + kind);
-    std::vector<Failure> fails;
+    c.cls("history:" + hclass);
+    if (h.cls == 1) {
+        for (int e : h.entries) {
+            c.cls("history-entry:" + std::string(HISTORY_NAME[e]));
+        }
+    }
+    std::vector<Failure> fails = r.historyFails;
     std::map<std::string, long> notes;
-    long positions = 0;
+    long positions = 0, positionsB = 0;
     for (int p = 0; p < NPOS; ++p) {
-        if (!obs[p].ran) {
+        if (!r.a[p].ran) {
             continue;
         }
         ++positions;
         std::string refV, libV;
         size_t before = fails.size();
-        judge(s, p, obs[p], fails, refV, libV, notes);
+        judge(s, p, r.a[p], fails, refV, libV, notes);
         c.cls(std::string(POS_NAME[p]) + ":" + refV + "/" + libV);
-        c.text += "\n  " + std::string(POS_NAME[p]) + ": reference " + refV + ", library " + libV + (obs[p].other > 0 ? " (+" + std::to_string(obs[p].other) + " issue(s) of other rules)" : "") + (fails.size() > before ? "  <-- " + fails[before].sig : "");
-        if (obs[p].other > 0 && refV.compare(0, 4, "real") == 0 && libV == "silent") {
+        c.text += "\n  " + std::string(POS_NAME[p]) + ": reference " + refV + ", library " + libV + (r.a[p].other > 0 ? " (+" + std::to_string(r.a[p].other) + " issue(s) of other rules)" : "") + (fails.size() > before ? "  <-- " + fails[before].sig : "");
+        if (r.a[p].other > 0 && refV.compare(0, 4, "real") == 0 && libV == "silent") {
             c.count("accepted_with_issues_of_other_rules:" + std::string(POS_NAME[p]));
         }
+        if (!r.b[p].ran) {
+            continue;
+        }
+        ++positionsB;
+        if (fails.size() > before) {
+            continue; // already failing in the fresh state: reported as such
+        }
+        std::vector<Failure> failsB;
+        std::map<std::string, long> notesB;
+        std::string refB, libB, what;
+        judge(s, p, r.b[p], failsB, refB, libB, notesB);
+        const std::string where = std::string(POS_NAME[p]) + " = " + show(s) + " with history " + hclass + " [" + hlabel + "]";
+        if (!failsB.empty()) {
+            std::string oracle = failsB[0].sig.substr(0, failsB[0].sig.find('|'));
+            fails.push_back({"C16.history|" + std::string(POS_NAME[p]) + "|" + hclass + "|" + hlabel + "|" + (oracle.compare(0, 4, "C16.") == 0 ? oracle.substr(4) : oracle),
+                             "correct in a fresh state (library " + libV + "), wrong for " + where + ": " + failsB[0].sig + " :: " + failsB[0].msg});
+        } else if (!sameObservation(r.a[p], r.b[p], what)) {
+            fails.push_back({"C16.history|" + std::string(POS_NAME[p]) + "|" + hclass + "|" + hlabel + "|" + what, "the observation of " + where + " differs from the fresh-state one (library " + libV + " -> " + libB + ", " + what + ")"});
+        }
+        if (fails.size() > before) {
+            c.text += "\n    after history: library " + libB + "  <-- " + fails[before].sig;
+        }
     }
-    c.count("string_position_evaluations", positions);
+    if (countA) {
+        c.count("string_position_evaluations", positions);
+    }
+    if (positionsB != 0) {
+        c.count("string_position_evaluations_with_history", positionsB);
+    }
     for (const auto &k : notes) {
         c.count(k.first, k.second);
     }
@@ -928,6 +1286,39 @@ void stringCase(Case &c, const std::string &kind, const std::string &s, bool exh
         }
         c.fail(chosen->sig, chosen->msg + "\nall failing positions of this string:" + all);
     }
+}
+
+// History choices of a string case; read after the string so that a tape without them means "none".
+HistoryPlan genHistory(Src &src, size_t len)
+{
+    HistoryPlan h;
+    const bool ex = gMode == "ex";
+    if (ex && static_cast<int>(len) > gLenHistory) {
+        return h;
+    }
+    h.cls = static_cast<int>(src.below(3));
+    if (h.cls == 1) {
+        // values 0..8 name the catalogue entry, 9..11 the first three again (entries with a MathML block stay at a quarter)
+        auto entry = [&](uint64_t radix) {
+            uint64_t v = src.below(radix);
+            return static_cast<int>(v < static_cast<uint64_t>(N_HISTORY) ? v : v - static_cast<uint64_t>(N_HISTORY));
+        };
+        h.entries.push_back(entry(ex ? N_HISTORY_CHEAP : N_HISTORY + 3));
+        uint64_t extra = src.below(ex ? 1 : 3);
+        for (uint64_t k = 0; k < extra; ++k) {
+            h.entries.push_back(entry(N_HISTORY + 3));
+        }
+    } else if (h.cls == 2) {
+        h.aug = 1 + static_cast<int>(src.below(3));
+    }
+    if (h.cls != 0) {
+        // the five attribute positions always; the cn positions (one MathML block each) in an eighth of the random cases
+        h.maskB = (1u << P_CN_REAL) - 1;
+        if (src.below(ex ? 1 : 8) == 7) {
+            h.maskB = (1u << NPOS) - 1;
+        }
+    }
+    return h;
 }
 
 // ------------------------------------------------------------------------------------------------ printer leg
@@ -968,6 +1359,7 @@ const char *const TARGET_NAME[3] = {"unit@exponent", "unit@multiplier", "reset@o
 void printerCase(Case &c, const std::string &kind, int target, double value, int ivalue)
 {
     xmlKeepBlanksDefault(1);
+    errno = 0;
     const std::string tn = TARGET_NAME[target];
     // Magnitude class. What the 15-significant-digit text of the value does in strtod separates the two ends of the
     // double range where a 15-digit decimal cannot come back: it rounds above DBL_MAX, or it is (or rounds to) a
@@ -1197,7 +1589,8 @@ void run(Src &src, Case &c)
             sym[k] = static_cast<int>(src.below(10));
             s += ALPHA10[sym[k]];
         }
-        stringCase(c, "enumerated", s, ex, indexOfSymbols(sym));
+        HistoryPlan h = genHistory(src, len);
+        stringCase(c, "enumerated", s, ex, indexOfSymbols(sym), h);
         break;
     }
     case 1: {
@@ -1218,18 +1611,21 @@ void run(Src &src, Case &c)
         for (size_t k = 0; k < len; ++k) {
             s += wide ? src.pick(wideAlphabet()) : std::string(1, ALPHA10[src.below(10)]);
         }
-        stringCase(c, wide ? "long-wide-alphabet" : "long", s, false, 0);
+        HistoryPlan h = genHistory(src, len);
+        stringCase(c, wide ? "long-wide-alphabet" : "long", s, false, 0, h);
         break;
     }
     case 3: {
         std::string label;
         std::string s = genNearMiss(src, label);
-        stringCase(c, "near-miss:" + label, s, false, 0);
+        HistoryPlan h = genHistory(src, s.size());
+        stringCase(c, "near-miss:" + label, s, false, 0, h);
         break;
     }
     case 4: {
         std::string s = genExtreme(src);
-        stringCase(c, "extreme", s, false, 0);
+        HistoryPlan h = genHistory(src, s.size());
+        stringCase(c, "extreme", s, false, 0, h);
         break;
     }
     case 5: {
@@ -1273,6 +1669,7 @@ void setMode(const std::string &mode, long bound)
         } else {
             gLenAttr = gLenCn = static_cast<int>(std::max(0L, bound));
         }
+        gLenHistory = std::min(gBatchCn ? 2 : 3, std::max(gLenAttr, gLenCn));
     }
 }
 
@@ -1295,6 +1692,9 @@ Property property = {
     "Exhaustive stage: every string of length 0..L over the 10 symbols {0,1,9,+,-,.,e,E,blank,a} (x_exhaustive_space_bound<b> records L per position group and whether cn elements shared MathML blocks), plus a table of numbers through the printer. "
     "Random stage: strings up to 40 symbols (also all ten digits, hex/Fortran/locale/non-ASCII-digit symbols), near-misses of valid numbers (one insertion, deletion, extra point/exponent, inner sign, blanks around, plus sign, mantissa digits removed), "
     "extreme magnitudes, and finite doubles / ints (random bit patterns, random 1..15-digit decimals in 1e-300..1e300) set through the API as exponent / multiplier / order, printed, re-parsed strictly and compared to 15 significant digits. "
+    "History: a string case may carry a history drawn from its own tape: 1..3 other documents / API models with underflowing, overflowing or beyond-int numeric texts go through Parser, Validator, Printer, Analyser, Generator first in the same process "
+    "(range-error-before), or the placement's own document also contains such a text (same-document-range-error); the placements are then observed again and must agree with the fresh-state observation (errno cleared before every document) and with the reference. "
+    "The exhaustive stage enumerates every string up to length 2 (3 when unbatched) with each of six histories and three same-document variants; every random-tier case is observed in a forked child so that no case inherits process state from an earlier one. "
     "Oracle: two POSIX regular expressions written from the statement plus strtod/strtoll (ERANGE = out of range); cn text is judged after blank stripping, attributes are not; exceptions are caught in the harness and are failures. "
     "Non-trivial: the string is neither empty nor all digits (every printer round trip is non-trivial). Distinct = hash of the string (or of the printer case text).",
     run,
